@@ -301,10 +301,12 @@ def run(ctx):
     groups = {}
     for entry in cat:
         groups.setdefault(id(entry[2]), []).append(entry)
-    for gid, entries in groups.items():
+    # thorough tier: the whole catalogue is run on six independent draws of the data (quick: one)
+    draws = [0] if ctx.tier == "quick" else [0, 1, 2, 3, 4, 5]
+    for gid, entries, draw in [(g, e, d) for d in draws for g, e in groups.items()]:
         build = entries[0][2]
         for layout in LAYOUTS:
-            rng = np.random.default_rng(ctx.seed + 18)
+            rng = np.random.default_rng(ctx.seed + 18 + 1000 * draw)
             base = build(rng)
             allarrs = sorted({k for e in entries for k in e[3]})
             args = {}
@@ -340,7 +342,7 @@ def run(ctx):
                         # this input layout is not accepted by the function: not a call of the catalogue; the arguments must still be intact
                         res_digest = "exc:" + type(e).__name__
                         skipped[name + "@" + layout] = res_digest
-                    events.append({"ev": "call", "fn": name + "@" + layout, "args": [idof[k] for k in tracked], "seed": 12345,
+                    events.append({"ev": "call", "fn": name + "@" + layout + ("#%d" % draw if draw else ""), "args": [idof[k] for k in tracked], "seed": 12345,
                                    "post": [digest(args[k]) for k in tracked], "result": res_digest})
                     owner.append((name, layout, None))
             for name, cnt in okcount.items():
